@@ -642,7 +642,7 @@ func execC10(t *testing.T, p *sim.Program, c *sim.Ctx) {
 			}
 			var A, B sm9.KeyExchange
 			var doneKey, liveKeyA, liveKeyB []byte // key of the last untouched, completed agreement (copy / the slices the library returned)
-			var key0 []byte                     // ... of round 0
+			var key0 []byte                        // ... of round 0
 			exchange := func(round int, faultsOn bool) int {
 				corrupt := func(m []byte, target bool) []byte {
 					if !target || fault == 0 || len(m) == 0 || !faultsOn {
